@@ -342,6 +342,28 @@ def run_shard(spec, R):
             tb = darsia.make_coordinate(pts).to_voxel(cs)
             R.check(np.array_equal(np.asarray(tb), np.asarray(back)), "typed_equals_raw", case)
 
+        # ---- physical points given in whole units (integer-typed arrays, lists of ints, typed points built from them):
+        # judged by the contract like any other point (points on a voxel face are skipped there)
+        ipts = np.unique(np.round(CO.coordinate(dim, shape, dims, origin, vox + 0.5)).astype(int), axis=0)[:200]
+        ok_i, iback = R.guarded("inverse_batch", lambda: cs.voxel(ipts))
+        if ok_i:
+            fback = np.asarray(cs.voxel(ipts.astype(float)))
+            R.check(np.array_equal(np.asarray(iback), fback), "integer_typed_points_equal_float_points", lambda: {**case, "first_bad": ipts[np.argwhere((np.asarray(iback) != fback).any(axis=1))[0][0]].tolist()})
+            for k_ in range(min(4, len(ipts))):
+                for f_ in (ipts[k_].tolist(), darsia.Coordinate(ipts[k_])):
+                    ok_s, s_ = R.guarded("inverse_single", lambda: cs.voxel(f_) if not isinstance(f_, darsia.Coordinate) else f_.to_voxel(cs))
+                    if ok_s:
+                        R.check(np.array_equal(np.asarray(s_), fback[k_]), "integer_typed_points_equal_float_points", lambda: {**case, "point": ipts[k_].tolist(), "form": type(f_).__name__})
+        # a refused request in between (a vector of the wrong length, something that is no array) does not move the
+        # kept coordinate system
+        for bad_ in (np.zeros(dim + 2), "no array", [[0.0] * (dim + 1)]):
+            try:
+                cs.coordinate_vector(bad_)
+            except Exception:
+                pass
+        judge_forward(R, meta, vox[:50], cs.coordinate(vox[:50]), "forward_after_refused_request")
+        R.count("refused_request_in_between")
+
         # ---- centre -> coordinate -> voxel is the identity (typed, incl. negative indices)
         vc = darsia.make_voxel_center(vox)
         R.check(np.array_equal(np.asarray(vc, float), vox + 0.5), "voxel_center_is_index_plus_half", case)
